@@ -11,7 +11,10 @@ Builders == {"probe", "plane"}
 Potentials == {"atoms", "fp_mean", "fp_nomean", "atoms_ensemble", "crystal", "array"}
 ExitPlanes == {"none", "int", "tuple"}
 Detectors == {"waves", "annular", "flexible", "segmented", "pixelated", "two"}
-Scans == {"none", "custom", "line", "grid", "grid_uneven"}      \* grid_uneven: 2 x 8 positions; max_batch 6 splits it as (2) x (3, 3, 2) (a remainder block of more than one position)
+Scans == {"none", "custom", "line", "grid", "grid_uneven", "grid_mixed_endpoint"}      \* grid_uneven: 2 x 8 positions; max_batch 6 splits it as (2) x (3, 3, 2) (a remainder block of more than one position)
+\* grid_mixed_endpoint: 3 x 4 positions, endpoint = (TRUE, FALSE): the two axes follow different spacing rules
+\* beam tilt of the builder: none, a series along the SECOND component only, a scalar first component with a series along the second
+Tilts == {"none", "y_series", "x_scalar_y_series"}
 Batches == {"1", "3", "6", "auto"}
 Schedulers == {"synchronous", "threads"}
 Variants == {<<b, s>> : b \in Batches, s \in Schedulers}
@@ -20,6 +23,9 @@ Variants == {<<b, s>> : b \in Batches, s \in Schedulers}
 Valid(s) == /\ (s.builder = "plane" => s.scan = "none")
             /\ (s.scan = "none" => s.detector \in {"waves", "pixelated"})
             /\ (s.ctf => s.detector \in {"waves", "pixelated"})
+            \* tilt series are combined with the plainest pipelines (the tilt axis is one more ensemble axis in front of everything else)
+            /\ (s.tilt # "none" => /\ s.exit_planes = "none" /\ ~s.ctf /\ s.potential \in {"atoms", "fp_nomean", "array"}
+                                   /\ s.detector \in {"waves", "annular", "pixelated"} /\ s.scan \in {"none", "custom", "grid"})
 
 Tol == 50000
 VariantFails(ev, v) ==
